@@ -776,6 +776,7 @@ func checkC19(r *Report) {
 	quoteAgreeRule(r, p, "C19.f/QUOTE-AGREE", "resolve/internal/versiontest.String", "resolve/internal/versiontest.ParseString")
 	// g. comparators of attribute sets: deterministic and mirrored
 	cfs := threeWayFns(p, "resolve/internal/attr", "resolve/dep", "resolve/version")
+	noWideSubtractRule(r, p, "C19.g/NO-WIDE-SUBTRACT", cfs)
 	nM := mapOrderRule(r, p, "C19.g/MAP-ORDER", cfs)
 	signSymmetryRule(r, p, "C19.g/SIGN-SYMMETRIC", cfs)
 	r.floor("C19.g/MAP-ORDER", "three-way comparators of attr, dep and version", nM, 2)
